@@ -35,6 +35,9 @@ UNUSUAL_X = [
     "proc show(array s) is 1(s[0] + 48, 0) proc main() is show(\"\")",
     "proc show(array s, val c) is 1(c, 0) proc main() is { show(\"\", 'a'); show(\"b\", #7F) }",
     "proc main() is 0('x' - #78)",
+    # literals beyond the range of the conversion routines (they leave errno and the like behind in the process)
+    "val big = 99999999999999999999; proc main() is 0(big)",
+    "proc main() is 0(#FFFFFFFFFFFFFFFFFFFFFFF - 1)",
 ]
 UNUSUAL_ASM = [
     "unused\nLDAC 1\nalso_unused\nOPR ADD\n",
@@ -42,6 +45,8 @@ UNUSUAL_ASM = [
     "# only a comment\n",
     "",
     "DATA 1\nDATA 2\nx\nDATA 3\nLDAM x\n",
+    "LDAC 99999999999999999999\nDATA 340282366920938463463374607431768211456\n",
+    "LDAC -99999999999999999999\nLDBC 18446744073709551616\n",
 ]
 X_ACTIONS = [[], ["-S"], ["--tree"], ["--tree-opt"], ["--insts"], ["--insts-lowered"], ["--insts-optimised"]]
 
